@@ -21,3 +21,14 @@ func CreateJobs(pieces []piece.Piece, begin, end uint32) []JobSpec {
 	}
 	return out
 }
+
+// NewStubForVerif returns a downloader for pieces [begin, end) whose goroutine is never started:
+// Close returns at once. The piece picker only reads Begin, End and the current index of it.
+func NewStubForVerif(source string, begin, end uint32) *URLDownloader {
+	d := New(source, begin, end, nil)
+	close(d.doneC)
+	return d
+}
+
+// AdvanceForVerif does what Run does after handing over a piece that is not the last one.
+func (d *URLDownloader) AdvanceForVerif() uint32 { return d.incrCurrent() }
